@@ -296,7 +296,15 @@ func c18(c *Ctx) {
 		})
 		ns := match(func(n ast.Node) bool {
 			as, ok := n.(*ast.AssignStmt)
-			return ok && len(as.Rhs) == 1 && strings.Contains(exprStr(as.Rhs[0]), "c.namespace + name")
+			if !ok || len(as.Rhs) != 1 {
+				return false
+			}
+			be, isBin := unparen(as.Rhs[0]).(*ast.BinaryExpr)
+			if !isBin || be.Op != token.ADD {
+				return false
+			}
+			fv, _ := fieldOf(info, be.X)
+			return fv != nil && fv.Name() == "namespace" && len(as.Lhs) == 1 && sameVar(info, as.Lhs[0], objOf(info, be.Y))
 		})
 		unit := match(func(n ast.Node) bool {
 			as, ok := n.(*ast.AssignStmt)
